@@ -19,7 +19,7 @@ KANI_ASSUME = [
 ]
 
 PROPS = {
-    'C13': dict(level='proof', level_text='every comparison kernel obligation is a loop-free Kani proof over the full scalar domains (i64, finite f64, char, variant pairs, inclusive bits): complete, not bounded; string/list/map payloads are bounded units counted separately', level_note='regex engine trusted (stubbed); format! stubbed; strings/lists/maps only in bounded units', vgroups=[], kunits=['U-cmp-int', 'U-cmp-float', 'U-cmp-char-null-bool', 'U-cmp-types', 'U-peq-same', 'U-within', 'U-unary-op-k'],
+    'C13': dict(level='proof', level_text='every comparison kernel obligation is a loop-free Kani proof over the full scalar domains (i64, finite f64, char, variant pairs, inclusive bits): complete, not bounded; string/list/map payloads are bounded units counted separately', level_note='regex engine trusted (stubbed); format! stubbed; string order, list / map equality, `in [..]` and Float PartialEq are NOT decided (their units did not finish)', vgroups=[], kunits=['U-cmp-int', 'U-cmp-float', 'U-cmp-char-null-bool', 'U-cmp-types', 'U-peq-same', 'U-within', 'U-unary-op-k'],
                 assumptions=KANI_ASSUME,
                 not_under_contract=['regex engine (fancy_regex) - trusted', 'string comparison (lexicographic order): its Kani unit did not finish', 'list / map equality: Kani cannot build IndexMap', 'impl PartialEq for PathAwareValue vs compare_eq beyond same-type Null/Bool/Int/Char pairs (Float pairs and cross-type pairs time out)', '`X in [v1..vn]` (operators.rs)'],
                 explanation=''),
@@ -47,7 +47,7 @@ PROPS = {
     'C02': dict(level='proof', level_text='Verus proves, for all inputs and all lengths, that every record closed by rule/when/file/named-clause/clause evaluation carries the status returned to the caller and that this status is the documented function of the children statuses (record-tree ghost model)', level_note='assumed: EvalContext trait contract, CNF combinator contract (bounded Kani unit), query engine; termination not proved', vgroups=['eval', 'eval_blocks', 'eval_disp', 'tracker'], kunits=['U-cnf'], assumptions=EVAL_ASSUME,
                 not_under_contract=['query_retrieval_with_converter (Filter records)', 'RootScope::rule_status', 'RecordTracker (bounded only)'],
                 explanation=''),
-    'C03': dict(level='proof', level_text='Verus proves that the polarity reaching the per-value layer is operator-not XOR prefix-not on both the unary and the binary path of the real eval_guard_access_clause, and the named-rule negation table', level_note='assumed: unary_operation/binary_operation depend on the polarity bit as contracted (bounded Kani units)', vgroups=['eval'], kunits=['U-unary-special', 'U-unary-wiring'], assumptions=EVAL_ASSUME,
+    'C03': dict(level='proof', level_text='Verus proves that the polarity reaching the per-value layer is operator-not XOR prefix-not on both the unary and the binary path of the real eval_guard_access_clause, and the named-rule negation table', level_note='binary path: binary_operation is proved (U-binop) against the comparator contract cmp_sem, which stays assumed (operators.rs did not finish under Kani); unary path: unary_operation is an assumed callee contract in Verus, checked by the bounded Kani units U-unary-special (result-set branch) and U-unary-wiring (exists / is_*); the per-value `empty` path is not decided', vgroups=['eval'], kunits=['U-unary-special', 'U-unary-wiring'], assumptions=EVAL_ASSUME,
                 not_under_contract=['operators.rs list-valued In/Eq flip'], explanation=''),
     'C04': dict(level='proof', vgroups=['status', 'eval'], kunits=['U-cnf'], assumptions=EVAL_ASSUME,
                 level_text='order/repetition invariance is proved as lemmas over the aggregation spec functions (permutation = equal multisets, repetition = insertion of a copy; unbounded), composed with the conformance of the real aggregators to those spec functions (Verus unbounded for rule list / rule / when; Kani bounded for the CNF combinator)',
@@ -68,7 +68,7 @@ PROPS = {
                 level_note='to_upper/to_lower/url_decode/regex_replace/json_parse and the String arms of parse_* delegate to std / third-party code (trusted); composition laws are not decided',
                 not_under_contract=['to_upper', 'to_lower', 'url_decode', 'regex_replace', 'json_parse', 'parse_* on strings', 'now', 'parse_epoch'],
                 explanation='All string-valued obligations are bounded checks (strings <= 3 bytes, <= 3 arguments); the numeric/char converter obligations are complete over their payload domain. Bounded obligations are counted under bounded_obligations, never under discharged.'),
-    'C06': dict(level='proof', level_text='the exit-code folding functions are proved equal to the severity order stated by the property, for all i32 arguments', level_note='the inline folds in Validate::execute / evaluate_rule / main are not under contract', vgroups=['exit', 'validate'], kunits=[], assumptions=COMMON_ASSUME,
+    'C06': dict(level='proof', level_text='the exit-code functions are proved equal to what the property states, for all arguments: test::get_exit_code and JunitReporter::update_exit_code (severity folds), validate::evaluate_rule (parse error -> 5, FAIL -> 19, else 0; parser and evaluation uninterpreted)', level_note='the inline fold in Validate::execute, StructuredEvaluator::evaluate / CommonStructuredReporter::report, evaluate_against_data_input and main are not under contract', vgroups=['exit', 'validate'], kunits=[], assumptions=COMMON_ASSUME,
                 not_under_contract=['Validate::execute exit-code folding (inline `if status != SUCCESS { exit_code = status }`, I/O)', 'StructuredEvaluator::evaluate / CommonStructuredReporter::report (closures, I/O, &mut unsizing)', 'main'], explanation=''),
 }
 
